@@ -188,7 +188,16 @@ func (aux *Aux) buildCacheMeth(args slip.List) *slip.Method {
 	var meth slip.Method
 	key := make([]string, aux.reqCnt)
 	aux.collectMethods(&meth, key, 0, args)
-	if len(meth.Combinations) == 0 {
+	// Daemons alone are not applicable, there must be a primary or an
+	// around method to call.
+	var callable bool
+	for _, c := range meth.Combinations {
+		if c.Primary != nil || c.Wrap != nil {
+			callable = true
+			break
+		}
+	}
+	if !callable {
 		return nil
 	}
 	meth.Name = aux.docs.Name
